@@ -7,8 +7,11 @@
 (* paths are replayed into fortls's path_to_uri / path_from_uri.            *)
 EXTENDS Naturals, Sequences, SequencesExt, TLC
 CONSTANTS MaxSegs, MaxLen
-Classes    == {"plain", "digit", "blank", "percent", "hash", "question", "plus", "amp", "nonascii", "astral"}
-Unreserved == {"plain", "digit"}
+\* "combining": a base letter followed by a combining mark (not in any Unicode normal form a precomposed
+\* letter is in), "compat": a compatibility character (U+212B, U+F900) - any normalisation changes the path
+Classes    == {"plain", "upper", "digit", "blank", "percent", "hash", "question", "plus", "amp", "nonascii", "astral",
+               "combining", "compat", "cjkcompat"}
+Unreserved == {"plain", "upper", "digit"}
 Segs  == UNION {[1..n -> Classes] : n \in 1..MaxLen}
 Paths == UNION {[1..n -> Segs] : n \in 1..MaxSegs}
 VARIABLES path, enc
